@@ -46,7 +46,7 @@ var zooTypes = []reflect.Type{
 	reflect.TypeOf(za.Inner{}), reflect.TypeOf(zb.Inner{}), reflect.TypeOf(za.Item{}), reflect.TypeOf(zb.Item{}),
 	reflect.TypeOf(za.Extra{}), reflect.TypeOf(zb.Extra{}), reflect.TypeOf(za.Node{}), reflect.TypeOf(zb.Node{}),
 	reflect.TypeOf(za.Pair{}), reflect.TypeOf(zb.Pair{}), reflect.TypeOf(za.Embeds{}), reflect.TypeOf(za.Uniq{}),
-	reflect.TypeOf(anon1{}), reflect.TypeOf(anon2{}), reflect.TypeOf(anon3{}), reflect.TypeOf(za.Deep{}),
+	reflect.TypeOf(anon1{}), reflect.TypeOf(anon2{}), reflect.TypeOf(anon3{}), reflect.TypeOf(za.Deep{}), reflect.TypeOf(za.EmbedsDeep{}),
 }
 
 var structOfFieldTypes = []reflect.Type{
